@@ -14,8 +14,7 @@ CLAIMS = {
         "instruction (sequence enable; disable; store; enable = step_over_breakpoint around one single step): INT3 at exactly the "
         "requested byte, saved byte = the byte replaced, restore exact, re-arm keeps working; Tracer::apply_new_status on a "
         "breakpoint trap decided for every rip, si_code in {TRAP_BRKPT, SI_KERNEL} and breakpoint address pair: reports "
-        "Breakpoint(pid, rip-1), rewinds pc by exactly one and nothing else, marks the thread stopped, requests a group stop; "
-        "a temporary breakpoint of another thread is absorbed: not reported, exactly one single step over the original byte, INT3 re-armed.",
+        "Breakpoint(pid, rip-1), rewinds pc by exactly one and nothing else, marks the thread stopped, requests a group stop.",
         "Trusted: Kani/CBMC/CaDiCaL; stubs of ptrace read/write/getregs/setregs/getsiginfo onto static models; group_stop_interrupt cut; "
         "HashMap replaced by an association list in tracee.rs. Outside the claim: that the CPU traps exactly on patched bytes, "
         "continue_execution's dispatch, DWARF resolution of line/function breakpoints (C04), temporary breakpoints of other threads, "
